@@ -776,3 +776,684 @@ Proof.
     apply in_map_iff in Hx as (r & <- & Hr). apply in_rules_of in Hr as [_ Hr].
     unfold factor_out_rule. destruct (no_prefix α (rhs r)); simpl; congruence.
 Qed.
+
+(** ** Valid steps and sequences of valid steps *)
+
+(** [pr1] results from [pr] by factoring the non-empty prefix [α], shared by at least two
+    alternatives of [a], into the suffix non-terminal [a'], which is not a non-terminal of [pr]. *)
+Definition valid_step (pr : list prod) (a : N) (α : list sym) (a' : N) (pr1 : list prod) : Prop :=
+  α <> [] /\ 2 <= cnt α (map rhs (rules_of pr a)) /\ ~ In a' (pr_nts pr) /\
+  Permutation pr1 (lf_step pr a α a').
+
+(** [lf_reach pr news pr']: [pr'] results from [pr] by valid steps introducing the suffix
+    non-terminals [news] (in this order). *)
+Inductive lf_reach : list prod -> list N -> list prod -> Prop :=
+| lr_refl pr : lf_reach pr [] pr
+| lr_step pr a α a' pr1 news pr2 :
+    valid_step pr a α a' pr1 -> lf_reach pr1 news pr2 -> lf_reach pr (a' :: news) pr2.
+
+Lemma lf_reach_trans pr n1 pr1 : lf_reach pr n1 pr1 ->
+  forall n2 pr2, lf_reach pr1 n2 pr2 -> lf_reach pr (n1 ++ n2) pr2.
+Proof.
+  induction 1 as [pr|pr a α a' pr1 news pr2 Hv _ IH]; intros n2 pr3 H; simpl; [exact H|].
+  eapply lr_step; [exact Hv|]. apply IH. exact H.
+Qed.
+
+Lemma vs_facts pr a α a' pr1 : valid_step pr a α a' pr1 ->
+  exists r0 β0, In r0 pr /\ lhs r0 = a /\ rhs r0 = α ++ β0 /\ a <> a' /\ ~ In (NT a') α /\
+                (forall p, In p pr1 <-> In p (lf_step pr a α a')).
+Proof.
+  intros (Hne & Hc & Hf & HP).
+  destruct (cnt_witness α pr a) as (r0 & β0 & Hr0 & Hl0 & Hrhs0); [lia|].
+  exists r0, β0. repeat split; auto.
+  - intros <-. apply Hf, in_pr_nts. exists r0. auto.
+  - intros Hi. apply Hf, in_pr_nts. exists r0. split; [exact Hr0|]. right.
+    rewrite Hrhs0. apply in_or_app. auto.
+  - apply Permutation_in. exact HP.
+  - apply Permutation_in. symmetry. exact HP.
+Qed.
+
+(** C10, step lemma: a factoring step keeps the language of every old non-terminal (indeed of
+    every non-terminal other than the new one) and gives the new non-terminal the language of
+    the factored suffixes. *)
+Theorem lf_step_preserves g g' a α a' :
+  valid_step (prods g) a α a' (prods g') ->
+  (forall b, In b (pr_nts (prods g)) -> forall w, derives g' [NT b] w <-> derives g [NT b] w) /\
+  (forall b, b <> a' -> forall w, derives g' [NT b] w <-> derives g [NT b] w) /\
+  (forall w, derives g' [NT a'] w <->
+             exists r β, In r (prods g) /\ lhs r = a /\ rhs r = α ++ β /\ derives g β w).
+Proof.
+  intros Hv. pose proof Hv as (_ & _ & Hf & _).
+  destruct (vs_facts _ _ _ _ _ Hv) as (r0 & β0 & Hr0 & Hl0 & Hrhs0 & Haa & Hα & Hpr').
+  assert (forall b, b <> a' -> forall w, derives g' [NT b] w <-> derives g [NT b] w) as K.
+  { intros b Hb w. apply (step_lang_free g g' a α a' Hf Hα Haa Hpr').
+    intros [E|[]]. congruence. }
+  split; [|split].
+  - intros b Hb. apply K. intros ->. exact (Hf Hb).
+  - exact K.
+  - apply (step_lang_new g g' a α a' Hf Hα Haa Hpr').
+Qed.
+
+(** C10, measure: the weight strictly decreases in every step. *)
+Theorem lf_measure pr a α a' pr1 :
+  valid_step pr a α a' pr1 -> lf_weight pr1 < lf_weight pr.
+Proof.
+  intros (Hne & Hc & Hf & HP). unfold lf_weight at 1.
+  rewrite (cross_perm_l _ _ _ HP), (cross_perm_r _ _ _ HP).
+  apply step_measure; assumption.
+Qed.
+
+Lemma reach_nts pr news pr' : lf_reach pr news pr' ->
+  forall b, In b (pr_nts pr') <-> In b (pr_nts pr) \/ In b news.
+Proof.
+  induction 1 as [pr|pr a α a' pr1 news pr2 Hv _ IH]; intros b; simpl; [tauto|].
+  destruct (vs_facts _ _ _ _ _ Hv) as (r0 & β0 & Hr0 & Hl0 & Hrhs0 & _ & _ & Hpr').
+  rewrite IH, (step_nts pr pr1 a α a' r0 β0 Hr0 Hl0 Hrhs0 Hpr'). intuition congruence.
+Qed.
+
+Lemma reach_fresh pr news pr' : lf_reach pr news pr' ->
+  NoDup news /\ forall b, In b news -> ~ In b (pr_nts pr).
+Proof.
+  induction 1 as [pr|pr a α a' pr1 news pr2 Hv Hr [IH1 IH2]]; [split; [constructor|intros ? []]|].
+  pose proof Hv as (_ & _ & Hf & _).
+  destruct (vs_facts _ _ _ _ _ Hv) as (r0 & β0 & Hr0 & Hl0 & Hrhs0 & _ & _ & Hpr').
+  pose proof (step_nts pr pr1 a α a' r0 β0 Hr0 Hl0 Hrhs0 Hpr') as Hn.
+  split.
+  - constructor; [|exact IH1]. intros Hi. apply (IH2 _ Hi). apply Hn. right. reflexivity.
+  - intros b [<-|Hb]; [exact Hf|]. intros Hi. apply (IH2 _ Hb). apply Hn. left. exact Hi.
+Qed.
+
+Lemma reach_lang pr news pr' : lf_reach pr news pr' ->
+  forall s s' b, In b (pr_nts pr) ->
+  forall w, derives (mkCfg s' pr') [NT b] w <-> derives (mkCfg s pr) [NT b] w.
+Proof.
+  induction 1 as [pr|pr a α a' pr1 news pr2 Hv Hr IH]; intros s s' b Hb w.
+  - split; apply derives_incl; auto.
+  - destruct (vs_facts _ _ _ _ _ Hv) as (r0 & β0 & Hr0 & Hl0 & Hrhs0 & _ & _ & Hpr').
+    rewrite (IH s s' b).
+    + apply (proj1 (lf_step_preserves (mkCfg s pr) (mkCfg s pr1) a α a' Hv)). exact Hb.
+    + apply (step_nts pr pr1 a α a' r0 β0 Hr0 Hl0 Hrhs0 Hpr'). left. exact Hb.
+Qed.
+
+Lemma reach_measure pr news pr' : lf_reach pr news pr' ->
+  lf_weight pr' + length news <= lf_weight pr.
+Proof.
+  induction 1 as [pr|pr a α a' pr1 news pr2 Hv Hr IH]; simpl; [lia|].
+  pose proof (lf_measure _ _ _ _ _ Hv). lia.
+Qed.
+
+Lemma reach_lhs pr news pr' : lf_reach pr news pr' ->
+  forall b, In b (map lhs pr') -> In b (map lhs pr) \/ In b news.
+Proof.
+  induction 1 as [pr|pr a α a' pr1 news pr2 Hv Hr IH]; intros b Hb; [left; exact Hb|].
+  destruct (vs_facts _ _ _ _ _ Hv) as (r0 & β0 & Hr0 & Hl0 & Hrhs0 & _ & _ & Hpr').
+  destruct (IH b Hb) as [H|H]; [|right; right; exact H].
+  destruct (step_lhs pr pr1 a α a' r0 Hr0 Hl0 Hpr' b H) as [H'|H']; [left; exact H'|].
+  right. left. congruence.
+Qed.
+
+(** ** The model performs valid steps *)
+
+Lemma find_index_some {A} (f : A -> bool) l x :
+  In x l -> f x = true -> exists i, find_index f l = Some i.
+Proof.
+  induction l as [|y l IH]; intros Hin Hf; [contradiction|]. simpl.
+  destruct (f y) eqn:E; [eauto|]. destruct Hin as [->|Hin]; [congruence|].
+  destruct (IH Hin Hf) as (i & ->). simpl. eauto.
+Qed.
+
+Lemma filter_none {A} (f : A -> bool) l : (forall x, In x l -> f x = false) -> filter f l = [].
+Proof.
+  induction l as [|x l IH]; intros H; simpl; [reflexivity|].
+  rewrite (H x (or_introl eq_refl)). apply IH. intros y Hy. apply H. right. exact Hy.
+Qed.
+
+Lemma rules_of_others pr a b : b <> a -> rules_of (others pr a) b = rules_of pr b.
+Proof.
+  intros Hne. unfold rules_of, others. induction pr as [|p pr IH]; simpl; [reflexivity|].
+  destruct (N.eqb_spec (lhs p) a) as [E|E]; simpl.
+  - destruct (N.eqb_spec (lhs p) b) as [E'|_]; [congruence|exact IH].
+  - destruct (N.eqb (lhs p) b); rewrite IH; reflexivity.
+Qed.
+
+Section Main.
+  Variable fresh : N -> list N -> N.
+  Hypothesis fresh_ok : forall a excl, ~ In (fresh a excl) excl.
+
+  Lemma fresh_not_nt a pr : ~ In (fresh a (var_names pr)) (pr_nts pr).
+  Proof.
+    intros H. apply (fresh_ok a (var_names pr)). unfold var_names.
+    apply (proj2 (in_dedup _ _ N.eqb_eq _ _)). exact H.
+  Qed.
+
+  Lemma factor_out_prefix_spec m pr a α :
+    rules_of pr a <> [] ->
+    exists pr1, factor_out_prefix fresh (m, pr) (a, α) = Some (true, pr1) /\
+      Permutation pr1 (lf_step pr a α (fresh a (var_names pr))) /\
+      (forall b, b <> a -> b <> fresh a (var_names pr) -> rules_of pr1 b = rules_of pr b).
+  Proof.
+    intros Hne. unfold factor_out_prefix, apply_rule_transformation. simpl.
+    unfold lf_step. destruct (rules_of pr a) as [|r0 R] eqn:ER; [congruence|].
+    assert (In r0 pr /\ lhs r0 = a) as [Hr0 Hl0].
+    { apply in_rules_of. rewrite ER. left. reflexivity. }
+    destruct (find_index_some (fun r => N.eqb (lhs r) a) pr r0 Hr0) as (i & ->);
+      [apply N.eqb_eq; exact Hl0|].
+    unfold mod_factor. rewrite Hl0. set (a' := fresh a (var_names pr)).
+    set (new := mkProd a (α ++ [NT a']) :: map (factor_out_rule a' α) (r0 :: R)).
+    exists (firstn i (others pr a) ++ new ++ skipn i (others pr a)).
+    split; [reflexivity|]. split.
+    - rewrite Permutation_app_swap_app, firstn_skipn. reflexivity.
+    - intros b Hba Hba'. unfold rules_of at 1. rewrite !filter_app.
+      rewrite (filter_none _ new).
+      + simpl. rewrite <- filter_app, firstn_skipn. apply rules_of_others. exact Hba.
+      + intros x Hx. apply N.eqb_neq. destruct Hx as [<-|Hx]; simpl; [congruence|].
+        apply in_map_iff in Hx as (r & <- & Hr).
+        assert (lhs r = a) as Hrl.
+        { assert (In r (rules_of pr a)) as Hr' by (rewrite ER; exact Hr).
+          apply in_rules_of in Hr'. tauto. }
+        unfold factor_out_rule. destruct (no_prefix α (rhs r)); simpl; congruence.
+  Qed.
+
+  Definition pfx_ok (pr : list prod) (pfx : list (N * list sym)) : Prop :=
+    NoDup (map fst pfx) /\
+    forall e, In e pfx -> snd e <> [] /\ 2 <= cnt (snd e) (map rhs (rules_of pr (fst e))).
+
+  Lemma cnt_rules_nonempty α pr a : 1 <= cnt α (map rhs (rules_of pr a)) -> rules_of pr a <> [].
+  Proof. intros H E. rewrite E in H. unfold cnt in H. simpl in H. lia. Qed.
+
+  Lemma factor_out_all_spec pfx : forall m pr, pfx_ok pr pfx ->
+    exists pr' news,
+      factor_out_all fresh pfx (m, pr)
+      = Some (match pfx with [] => m | _ :: _ => true end, pr') /\
+      lf_reach pr news pr' /\ length news = length pfx.
+  Proof.
+    induction pfx as [|[a α] pfx IH]; intros m pr [Hnd Hok].
+    - exists pr, []. repeat split. constructor.
+    - destruct (Hok (a, α) (or_introl eq_refl)) as [Hne Hc]. simpl in Hne, Hc.
+      destruct (factor_out_prefix_spec m pr a α) as (pr1 & E & HP & Hsame).
+      { apply (cnt_rules_nonempty α). lia. }
+      set (a' := fresh a (var_names pr)) in *.
+      assert (valid_step pr a α a' pr1) as Hv.
+      { repeat split; auto. apply fresh_not_nt. }
+      destruct (IH true pr1) as (pr' & news & E' & Hr & Hlen).
+      { inversion Hnd as [|? ? Hnin Hnd']; subst. split; [exact Hnd'|].
+        intros [b β] Hin. destruct (Hok (b, β) (or_intror Hin)) as [Hbne Hbc]. simpl in *.
+        split; [exact Hbne|]. rewrite Hsame; [exact Hbc| |].
+        - intros ->. apply Hnin. apply in_map_iff. exists (a, β). auto.
+        - intros ->. destruct (cnt_witness β pr a') as (r & β1 & Hr & Hl & _); [lia|].
+          apply (fresh_not_nt a pr). apply in_pr_nts. exists r. auto. }
+      exists pr', (a' :: news). split; [|split].
+      + cbn [factor_out_all]. rewrite E. rewrite E'. destruct pfx; reflexivity.
+      + eapply lr_step; eassumption.
+      + simpl. congruence.
+  Qed.
+
+  Variable o : oracle.
+
+  Lemma flps_keys_spec it pr keys : NoDup keys ->
+    exists pfx, flps_keys o it pr keys = Some pfx /\ NoDup (map fst pfx) /\
+      forall e, In e pfx -> In (fst e) keys /\ snd e <> [] /\
+                            2 <= cnt (snd e) (map rhs (rules_of pr (fst e))).
+  Proof.
+    induction keys as [|a ks IH]; intros Hnd; simpl.
+    - exists []. split; [reflexivity|]. split; [constructor|intros ? []].
+    - inversion Hnd as [|? ? Hnin Hnd']; subst.
+      destruct (IH Hnd') as (r & -> & Hrnd & Hr).
+      destruct (find_prefix_total (ord_prefix o it a) (map rhs (rules_of pr a))) as (p & E).
+      rewrite E. destruct p as [|s p].
+      + exists r. split; [reflexivity|]. split; [exact Hrnd|].
+        intros e He. destruct (Hr e He) as (H1 & H2 & H3). auto.
+      + exists ((a, s :: p) :: r). split; [reflexivity|]. split.
+        * simpl. constructor; [|exact Hrnd]. intros Hi. apply in_map_iff in Hi as (e & He1 & He2).
+          destruct (Hr e He2) as (H1 & _). rewrite He1 in H1. exact (Hnin H1).
+        * intros e [<-|He]; simpl.
+          -- split; [auto|]. split; [discriminate|].
+             apply (find_prefix_sound _ _ _ E). discriminate.
+          -- destruct (Hr e He) as (H1 & H2 & H3). auto.
+  Qed.
+
+  Lemma flps_keys_nil it pr keys : flps_keys o it pr keys = Some [] ->
+    forall a, In a keys -> find_prefix (ord_prefix o it a) (map rhs (rules_of pr a)) = Some [].
+  Proof.
+    induction keys as [|b ks IH]; simpl; intros H a Ha; [contradiction|].
+    destruct (find_prefix (ord_prefix o it b) (map rhs (rules_of pr b))) as [p|] eqn:E; [|discriminate].
+    destruct (flps_keys o it pr ks) as [r|]; [|discriminate].
+    destruct p as [|s p]; [|discriminate]. destruct Ha as [<-|Ha]; [exact E|].
+    apply IH; [exact H|exact Ha].
+  Qed.
+
+  Lemma group_keys_in ordg pr a : In a (group_keys ordg pr) <-> In a (map lhs pr).
+  Proof. unfold group_keys. rewrite in_sort_by. apply (in_dedup _ _ N.eqb_eq). Qed.
+
+  Lemma group_keys_nodup ordg pr : NoDup (group_keys ordg pr).
+  Proof.
+    unfold group_keys. eapply Permutation_NoDup; [symmetry; apply sort_by_perm|].
+    apply (NoDup_dedup _ _ N.eqb_eq).
+  Qed.
+
+  Lemma flps_spec it pr :
+    exists pfx, find_longest_prefixes o it pr = Some pfx /\ pfx_ok pr pfx.
+  Proof.
+    unfold find_longest_prefixes.
+    destruct (flps_keys_spec it pr _ (group_keys_nodup (ord_groups o it) pr)) as (pfx & E & Hnd & H).
+    exists pfx. split; [exact E|]. split; [exact Hnd|].
+    intros e He. destruct (H e He) as (_ & H2 & H3). auto.
+  Qed.
+
+  Lemma lf_loop_spec fuel : forall it pr pr',
+    lf_loop fresh o fuel it pr = Some pr' ->
+    exists news it', lf_reach pr news pr' /\ find_longest_prefixes o it' pr' = Some [].
+  Proof.
+    induction fuel as [|f IH]; intros it pr pr' H; simpl in H; [discriminate|].
+    destruct (flps_spec it pr) as (pfx & E & Hok). rewrite E in H.
+    destruct (factor_out_all_spec pfx false pr Hok) as (pr1 & news & E1 & Hr & Hlen).
+    rewrite E1 in H. destruct pfx as [|e pfx].
+    - inversion H; subst pr'. inversion Hr; subst; [|discriminate].
+      exists [], it. split; [constructor|exact E].
+    - apply IH in H as (news' & it' & Hr' & E').
+      exists (news ++ news'), it'. split; [|exact E'].
+      eapply lf_reach_trans; eassumption.
+  Qed.
+
+  Lemma lf_loop_total fuel : forall it pr,
+    lf_weight pr < fuel -> lf_loop fresh o fuel it pr <> None.
+  Proof.
+    induction fuel as [|f IH]; intros it pr Hlt; [lia|]. simpl.
+    destruct (flps_spec it pr) as (pfx & E & Hok). rewrite E.
+    destruct (factor_out_all_spec pfx false pr Hok) as (pr1 & news & E1 & Hr & Hlen).
+    rewrite E1. destruct pfx as [|e pfx]; [discriminate|].
+    apply IH. apply reach_measure in Hr. simpl in Hlen. lia.
+  Qed.
+
+  (** ** Main theorems (C10) *)
+
+  Theorem lf_reach_of_left_factor fuel g g' :
+    left_factor fresh o fuel g = Some g' ->
+    start g' = start g /\
+    exists news it, lf_reach (prods g) news (prods g') /\
+                    find_longest_prefixes o it (prods g') = Some [].
+  Proof.
+    unfold left_factor. destruct (lf_loop fresh o fuel 1 (prods g)) as [pr'|] eqn:E; [|discriminate].
+    intros H. inversion H; subst g'. simpl. split; [reflexivity|].
+    apply (lf_loop_spec _ _ _ _ E).
+  Qed.
+
+  (** Termination with the explicit fuel bound [lf_fuel g] (any larger fuel works too). *)
+  Theorem lf_terminates_fuel g fuel : lf_fuel g <= fuel -> left_factor fresh o fuel g <> None.
+  Proof.
+    unfold lf_fuel, left_factor. intros Hf.
+    destruct (lf_loop fresh o fuel 1 (prods g)) as [pr'|] eqn:E; [discriminate|].
+    exfalso. apply (lf_loop_total fuel 1 (prods g)); [lia|exact E].
+  Qed.
+
+  Theorem lf_terminates g : exists fuel, left_factor fresh o fuel g <> None.
+  Proof. exists (lf_fuel g). apply lf_terminates_fuel. lia. Qed.
+
+  (** More fuel does not change the result. *)
+  Lemma lf_loop_mono fuel : forall it pr pr',
+    lf_loop fresh o fuel it pr = Some pr' -> lf_loop fresh o (S fuel) it pr = Some pr'.
+  Proof.
+    induction fuel as [|f IH]; intros it pr pr' H; [discriminate|].
+    remember (S f) as sf. simpl. subst sf. simpl in H.
+    destruct (find_longest_prefixes o it pr) as [pfx|]; [|discriminate].
+    destruct (factor_out_all fresh pfx (false, pr)) as [[m pr1]|]; [|discriminate].
+    destruct m; [|exact H]. apply IH. exact H.
+  Qed.
+
+  (** Language preservation for every non-terminal occurring in the productions of [g]. *)
+  Theorem lf_preserves_lang fuel g g' :
+    left_factor fresh o fuel g = Some g' ->
+    start g' = start g /\
+    forall a, In a (pr_nts (prods g)) ->
+    forall w, derives g' [NT a] w <-> derives g [NT a] w.
+  Proof.
+    intros H. destruct (lf_reach_of_left_factor _ _ _ H) as (Hs & news & it & Hr & _).
+    split; [exact Hs|]. intros a Ha w.
+    destruct g as [s pr], g' as [s' pr']. simpl in *.
+    apply (reach_lang _ _ _ Hr s s' a Ha w).
+  Qed.
+
+  (** ... and for all of [nts g] (the form asked for) when the start symbol occurs in the
+      productions, which holds for every grammar parol builds (the start symbol is the
+      left-hand side of the first production).  See [lf_start_clash_refuted] below. *)
+  Corollary lf_preserves_lang_nts fuel g g' :
+    In (start g) (pr_nts (prods g)) ->
+    left_factor fresh o fuel g = Some g' ->
+    start g' = start g /\
+    (forall a, In a (nts g) -> forall w, derives g' [NT a] w <-> derives g [NT a] w) /\
+    (forall w, lang g' w <-> lang g w).
+  Proof.
+    intros Hst H. destruct (lf_preserves_lang _ _ _ H) as [Hs Hl].
+    split; [exact Hs|]. split.
+    - intros a [<-|Ha]; apply Hl; assumption.
+    - intros w. unfold lang. rewrite Hs. apply Hl. exact Hst.
+  Qed.
+
+  (** Freshness: the non-terminals of the result are the old ones plus a duplicate-free list
+      of new ones, none of which is an old non-terminal; every new production of an old
+      non-terminal name belongs to a non-terminal that already had productions. *)
+  Theorem lf_fresh fuel g g' :
+    left_factor fresh o fuel g = Some g' ->
+    exists news,
+      lf_reach (prods g) news (prods g') /\
+      NoDup news /\
+      (forall a, In a news -> ~ In a (pr_nts (prods g))) /\
+      (forall b, In b (pr_nts (prods g')) <-> In b (pr_nts (prods g)) \/ In b news) /\
+      (forall b, In b (map lhs (prods g')) -> In b (map lhs (prods g)) \/ In b news).
+  Proof.
+    intros H. destruct (lf_reach_of_left_factor _ _ _ H) as (_ & news & it & Hr & _).
+    exists news. destruct (reach_fresh _ _ _ Hr) as [H1 H2].
+    repeat split; auto.
+    - apply reach_nts. exact Hr.
+    - apply reach_nts. exact Hr.
+    - apply reach_lhs. exact Hr.
+  Qed.
+End Main.
+
+(** ** The checkers *)
+
+(** No two alternatives at different positions, of the same non-terminal and with non-empty
+    right-hand sides, start with the same symbol. *)
+Definition prefix_free (g : cfg) : Prop :=
+  forall i j p q, i <> j ->
+    nth_error (prods g) i = Some p -> nth_error (prods g) j = Some q ->
+    lhs p = lhs q -> rhs p <> [] -> rhs q <> [] -> hd_error (rhs p) <> hd_error (rhs q).
+
+Lemma starts_with_true s r : starts_with s r = true <-> hd_error r = Some s.
+Proof.
+  destruct r as [|x r]; simpl; [split; discriminate|].
+  rewrite sym_eqb_eq. split; congruence.
+Qed.
+
+Theorem prefix_free_check_spec g : prefix_free_check g = true <-> prefix_free g.
+Proof.
+  unfold prefix_free_check, prefix_free. rewrite forallb_forall. split.
+  - intros H i j p q Hij Hi Hj Hl Hp Hq Hhd.
+    specialize (H p (nth_error_In _ _ Hi)).
+    destruct (rhs p) as [|s rp] eqn:Ep; [congruence|]. apply Nat.leb_le in H.
+    set (f := fun q0 : prod => N.eqb (lhs q0) (lhs p) && starts_with s (rhs q0)) in H.
+    assert (f p = true) as Fp.
+    { unfold f. rewrite N.eqb_refl, Ep. simpl. apply sym_eqb_refl. }
+    assert (f q = true) as Fq.
+    { unfold f. rewrite <- Hl, N.eqb_refl. simpl. apply starts_with_true.
+      rewrite <- Hhd. reflexivity. }
+    assert (2 <= length (filter f (prods g))); [|lia].
+    apply filter_length_ge2.
+    destruct (Nat.lt_ge_cases i j) as [Hlt|Hge].
+    + exists i, j, p, q. auto.
+    + exists j, i, q, p. repeat split; auto. lia.
+  - intros H p Hp. destruct (rhs p) as [|s rp] eqn:Ep; [reflexivity|]. apply Nat.leb_le.
+    set (f := fun q0 : prod => N.eqb (lhs q0) (lhs p) && starts_with s (rhs q0)).
+    destruct (le_lt_dec (length (filter f (prods g))) 1) as [Hle|Hgt]; [exact Hle|].
+    exfalso. apply filter_length_ge2 in Hgt as (i & j & x & y & Hij & Hi & Hj & Fx & Fy).
+    unfold f in Fx, Fy. apply andb_prop in Fx as [Fx1 Fx2]. apply andb_prop in Fy as [Fy1 Fy2].
+    apply N.eqb_eq in Fx1, Fy1. apply starts_with_true in Fx2, Fy2.
+    apply (H i j x y); try assumption; try congruence; try lia.
+    + intros E. rewrite E in Fx2. discriminate.
+    + intros E. rewrite E in Fy2. discriminate.
+Qed.
+
+(** The same with [p <> q] as productions (the form of properties.jsonl). *)
+Lemma prefix_free_prods_of g : prefix_free g ->
+  forall a p q, In p (prods_of g a) -> In q (prods_of g a) -> p <> q ->
+  rhs p <> [] -> rhs q <> [] -> hd_error (rhs p) <> hd_error (rhs q).
+Proof.
+  intros H a p q Hp Hq Hne Hrp Hrq.
+  apply in_prods_of in Hp as [Hp Hpl]. apply in_prods_of in Hq as [Hq Hql].
+  apply In_nth_error in Hp as (i & Hi). apply In_nth_error in Hq as (j & Hj).
+  apply (H i j p q); try assumption; congruence.
+Qed.
+
+Lemma memN_true a l : memN a l = true <-> In a l.
+Proof.
+  unfold memN. rewrite existsb_exists. split.
+  - intros (x & Hx & E). apply N.eqb_eq in E. congruence.
+  - intros H. exists a. split; [exact H|apply N.eqb_refl].
+Qed.
+
+Theorem fresh_check_spec g g' :
+  fresh_check g g' = true <->
+  forall p, In p (prods g') -> ~ In (lhs p) (map lhs (prods g)) -> ~ In (lhs p) (nts g).
+Proof.
+  unfold fresh_check. rewrite forallb_forall. split.
+  - intros H p Hp Hn Hi. specialize (H p Hp). apply orb_prop in H as [H|H].
+    + apply memN_true in H. exact (Hn H).
+    + apply negb_true_iff in H. apply memN_true in Hi. congruence.
+  - intros H p Hp. destruct (memN (lhs p) (map lhs (prods g))) eqn:E; [reflexivity|]. rewrite orb_false_l.
+    apply negb_true_iff. destruct (memN (lhs p) (nts g)) eqn:E'; [|reflexivity].
+    exfalso. apply memN_true in E'. apply (H p Hp); [|exact E'].
+    intros Hi. apply memN_true in Hi. congruence.
+Qed.
+
+Theorem lf_check_spec g g' :
+  lf_check g g' = true <->
+  start g' = start g /\ prefix_free g' /\
+  (forall p, In p (prods g') -> ~ In (lhs p) (map lhs (prods g)) -> ~ In (lhs p) (nts g)).
+Proof.
+  unfold lf_check. rewrite !andb_true_iff, N.eqb_eq, prefix_free_check_spec, fresh_check_spec.
+  tauto.
+Qed.
+
+(** ** The result is prefix free *)
+
+Lemma starts_with_no_prefix s x : negb (no_prefix [s] x) = starts_with s x.
+Proof.
+  unfold no_prefix. destruct x as [|t x]; simpl; [reflexivity|].
+  rewrite andb_true_r, negb_involutive. apply sym_eqb_sym.
+Qed.
+
+Lemma cnt_starts s pr a :
+  cnt [s] (map rhs (rules_of pr a))
+  = length (filter (fun q => N.eqb (lhs q) a && starts_with s (rhs q)) pr).
+Proof.
+  rewrite cnt_rules. unfold rules_of. induction pr as [|p pr IH]; simpl; [reflexivity|].
+  destruct (N.eqb (lhs p) a); simpl; [|exact IH].
+  rewrite starts_with_no_prefix. destruct (starts_with s (rhs p)); simpl; rewrite IH; reflexivity.
+Qed.
+
+Lemma exit_prefix_free o it s pr :
+  find_longest_prefixes o it pr = Some [] -> prefix_free_check (mkCfg s pr) = true.
+Proof.
+  intros H. unfold prefix_free_check. apply forallb_forall. intros p Hp. simpl.
+  destruct (rhs p) as [|x r] eqn:E; [reflexivity|]. apply Nat.leb_le.
+  rewrite <- cnt_starts. apply (find_prefix_empty (ord_prefix o it (lhs p))).
+  apply (flps_keys_nil o it pr _ H). apply group_keys_in. apply in_map. exact Hp.
+Qed.
+
+Section Main2.
+  Variable fresh : N -> list N -> N.
+  Hypothesis fresh_ok : forall a excl, ~ In (fresh a excl) excl.
+  Variable o : oracle.
+
+  (** C10: in the result no two non-empty alternatives of one non-terminal begin with the same
+      symbol; in particular the [n], [n+1], [n+2] probing of [find_longest_prefix] never
+      misses a shared first symbol, whatever the hash order. *)
+  Theorem lf_result_prefix_free_check fuel g g' :
+    left_factor fresh o fuel g = Some g' -> prefix_free_check g' = true.
+  Proof.
+    intros H. destruct (lf_reach_of_left_factor fresh fresh_ok o _ _ _ H) as (_ & news & it & _ & E).
+    destruct g' as [s' pr']. simpl in E. apply (exit_prefix_free o it). exact E.
+  Qed.
+
+  Theorem lf_result_prefix_free_pos fuel g g' :
+    left_factor fresh o fuel g = Some g' -> prefix_free g'.
+  Proof. intros H. apply prefix_free_check_spec. eapply lf_result_prefix_free_check. exact H. Qed.
+
+  Theorem lf_result_prefix_free fuel g g' :
+    left_factor fresh o fuel g = Some g' ->
+    forall a p q, In p (prods_of g' a) -> In q (prods_of g' a) -> p <> q ->
+    rhs p <> [] -> rhs q <> [] -> hd_error (rhs p) <> hd_error (rhs q).
+  Proof. intros H. apply prefix_free_prods_of. eapply lf_result_prefix_free_pos. exact H. Qed.
+
+  (** The model's result passes the whole checker. *)
+  Theorem lf_model_passes_check fuel g g' :
+    In (start g) (pr_nts (prods g)) ->
+    left_factor fresh o fuel g = Some g' -> lf_check g g' = true.
+  Proof.
+    intros Hst H. apply lf_check_spec.
+    destruct (lf_reach_of_left_factor fresh fresh_ok o _ _ _ H) as (Hs & _).
+    split; [exact Hs|]. split; [eapply lf_result_prefix_free_pos; exact H|].
+    destruct (lf_fresh fresh fresh_ok o _ _ _ H) as (news & _ & _ & Hf & _ & Hl).
+    intros p Hp Hn [Hi|Hi].
+    - destruct (Hl (lhs p) (in_map lhs _ _ Hp)) as [H1|H1]; [exact (Hn H1)|].
+      apply (Hf _ H1). rewrite <- Hi. exact Hst.
+    - destruct (Hl (lhs p) (in_map lhs _ _ Hp)) as [H1|H1]; [exact (Hn H1)|].
+      exact (Hf _ H1 Hi).
+  Qed.
+End Main2.
+
+(** C24: whatever the hash orders (and name supplies), the resulting LANGUAGE is the same. *)
+Theorem lf_order_indep_lang fresh1 fresh2 o1 o2 f1 f2 g g1 g2 :
+  (forall a excl, ~ In (fresh1 a excl) excl) -> (forall a excl, ~ In (fresh2 a excl) excl) ->
+  left_factor fresh1 o1 f1 g = Some g1 -> left_factor fresh2 o2 f2 g = Some g2 ->
+  start g1 = start g2 /\
+  forall a, In a (pr_nts (prods g)) -> forall w, derives g1 [NT a] w <-> derives g2 [NT a] w.
+Proof.
+  intros Hf1 Hf2 H1 H2.
+  destruct (lf_preserves_lang fresh1 Hf1 o1 _ _ _ H1) as [Hs1 Hl1].
+  destruct (lf_preserves_lang fresh2 Hf2 o2 _ _ _ H2) as [Hs2 Hl2].
+  split; [congruence|]. intros a Ha w. rewrite (Hl1 a Ha w), (Hl2 a Ha w). reflexivity.
+Qed.
+
+(** ** Concrete instances, examples, refutations *)
+
+Lemma fold_max_ge x l : In x l -> (x <= fold_right N.max 0 l)%N.
+Proof.
+  induction l as [|y l IH]; intros H; [contradiction|]. simpl.
+  destruct H as [->|H]; [lia|]. specialize (IH H). lia.
+Qed.
+
+Lemma fresh_max_ok : forall a excl, ~ In (fresh_max a excl) excl.
+Proof.
+  intros a excl H. unfold fresh_max in H. apply fold_max_ge in H. lia.
+Qed.
+
+(** The constant oracle (insertion order) and an oracle that hashes prefixes starting with
+    terminal 5 after all others. *)
+Definition o_const : oracle := mkOracle (fun _ _ => 0) (fun _ _ _ _ => 0).
+Definition o_alt : oracle :=
+  mkOracle (fun _ _ => 0) (fun _ _ _ k => match k with T 5%N :: _ => 1 | _ => 0 end).
+
+(** [S: a b c | a b d | a e | f] with S = 0, a..f = 5..10. *)
+Definition ex_S : cfg :=
+  mkCfg 0 [mkProd 0 [T 5; T 6; T 7]; mkProd 0 [T 5; T 6; T 8]; mkProd 0 [T 5; T 9];
+           mkProd 0 [T 10]]%N.
+
+(** [S: a S2 | f;  S2: b S1 | e;  S1: c | d] *)
+Definition ex_S_result : cfg :=
+  mkCfg 0 [mkProd 0 [T 5; NT 2]; mkProd 2 [T 6; NT 1]; mkProd 2 [T 9]; mkProd 0 [T 10];
+           mkProd 1 [T 7]; mkProd 1 [T 8]]%N.
+
+Example ex_S_find_prefix :
+  find_prefix (ord_prefix o_const 1 0%N) (map rhs (prods ex_S)) = Some [T 5; T 6]%N.
+Proof. vm_compute. reflexivity. Qed.
+
+Example ex_S_fuel : lf_fuel ex_S = 18.
+Proof. vm_compute. reflexivity. Qed.
+
+Example ex_S_left_factor : left_factor fresh_max o_const (lf_fuel ex_S) ex_S = Some ex_S_result.
+Proof. vm_compute. reflexivity. Qed.
+
+Example ex_S_left_factor_small_fuel : left_factor fresh_max o_const 2 ex_S = None.
+Proof. vm_compute. reflexivity. Qed.
+
+Example ex_S_not_prefix_free : prefix_free_check ex_S = false.
+Proof. vm_compute. reflexivity. Qed.
+
+Example ex_S_check : lf_check ex_S ex_S_result = true.
+Proof. vm_compute. reflexivity. Qed.
+
+Example ex_S_start_occurs : In (start ex_S) (pr_nts (prods ex_S)).
+Proof. left. reflexivity. Qed.
+
+(** The first step performed on [ex_S] is a valid step. *)
+Example ex_S_valid_step :
+  valid_step (prods ex_S) 0%N [T 5; T 6]%N 1%N (lf_step (prods ex_S) 0%N [T 5; T 6]%N 1%N).
+Proof.
+  split; [discriminate|]. split; [vm_compute; lia|]. split; [|reflexivity].
+  vm_compute. intros [H|[H|[H|[H|[]]]]]; discriminate.
+Qed.
+
+Example ex_S_lang : forall w, lang ex_S_result w <-> lang ex_S w.
+Proof.
+  apply (lf_preserves_lang_nts fresh_max fresh_max_ok o_const (lf_fuel ex_S) ex_S ex_S_result
+           ex_S_start_occurs ex_S_left_factor).
+Qed.
+
+(** D3 witness [A: a b | a c | d e | d f] (A = 0, a = 5, b = 6, c = 7, d = 8, e = 9, f = 10). *)
+Definition ex_D3 : cfg :=
+  mkCfg 0 [mkProd 0 [T 5; T 6]; mkProd 0 [T 5; T 7]; mkProd 0 [T 8; T 9]; mkProd 0 [T 8; T 10]]%N.
+
+(** C24 / D3: the prefix chosen by [find_prefix] depends on the hash order. *)
+Theorem find_prefix_order_refuted :
+  exists o1 o2 it a c,
+    find_prefix (ord_prefix o1 it a) c = Some [T 8%N] /\
+    find_prefix (ord_prefix o2 it a) c = Some [T 5%N].
+Proof.
+  exists o_const, o_alt, 1, 0%N, (map rhs (prods ex_D3)). split; vm_compute; reflexivity.
+Qed.
+
+(** ... and so does the factored grammar (order of productions, and which suffix gets which
+    generated name). *)
+Theorem lf_order_refuted :
+  exists o1 o2 g g1 g2,
+    left_factor fresh_max o1 (lf_fuel g) g = Some g1 /\
+    left_factor fresh_max o2 (lf_fuel g) g = Some g2 /\ g1 <> g2.
+Proof.
+  exists o_const, o_alt, ex_D3,
+    (mkCfg 0 [mkProd 0 [T 5; NT 2]; mkProd 0 [T 8; NT 1]; mkProd 2 [T 6]; mkProd 2 [T 7];
+              mkProd 1 [T 9]; mkProd 1 [T 10]]%N),
+    (mkCfg 0 [mkProd 0 [T 8; NT 2]; mkProd 0 [T 5; NT 1]; mkProd 2 [T 9]; mkProd 2 [T 10];
+              mkProd 1 [T 6]; mkProd 1 [T 7]]%N).
+  split; [vm_compute; reflexivity|]. split; [vm_compute; reflexivity|]. discriminate.
+Qed.
+
+(** The exclusion list of [generate_name] is [var_names(pr)], which does not contain a start
+    symbol that has no production and occurs on no right-hand side.  A name supply that honours
+    its contract may then return the start symbol, and the language of the start symbol changes
+    (from empty to non-empty).  Degenerate: parol's start symbol always has productions. *)
+Definition fresh_clash (a : N) (excl : list N) : N :=
+  if memN 9%N excl then fresh_max a excl else 9%N.
+
+Lemma fresh_clash_ok : forall a excl, ~ In (fresh_clash a excl) excl.
+Proof.
+  intros a excl. unfold fresh_clash. destruct (memN 9%N excl) eqn:E; [apply fresh_max_ok|].
+  intros H. apply memN_true in H. congruence.
+Qed.
+
+Theorem lf_start_clash_refuted :
+  exists fresh o g g' w,
+    (forall a excl, ~ In (fresh a excl) excl) /\
+    left_factor fresh o (lf_fuel g) g = Some g' /\ lang g' w /\ ~ lang g w.
+Proof.
+  exists fresh_clash, o_const, (mkCfg 9 [mkProd 0 [T 5; T 6]; mkProd 0 [T 5; T 7]]%N),
+    (mkCfg 9 [mkProd 0 [T 5; NT 9]; mkProd 9 [T 6]; mkProd 9 [T 7]]%N), [6%N].
+  split; [exact fresh_clash_ok|]. split; [vm_compute; reflexivity|]. split.
+  - unfold lang. simpl. apply derives_single. exists (mkProd 9 [T 6])%N.
+    split; [simpl; auto|]. split; [reflexivity|]. simpl. constructor. constructor.
+  - unfold lang. simpl. intros H. apply derives_single in H as (p & Hin & Hl & _).
+    simpl in Hin. destruct Hin as [<-|[<-|[]]]; discriminate.
+Qed.
+
+Print Assumptions lf_step_preserves.
+Print Assumptions lf_measure.
+Print Assumptions lf_terminates.
+Print Assumptions lf_terminates_fuel.
+Print Assumptions lf_preserves_lang.
+Print Assumptions lf_preserves_lang_nts.
+Print Assumptions lf_result_prefix_free.
+Print Assumptions lf_result_prefix_free_pos.
+Print Assumptions lf_result_prefix_free_check.
+Print Assumptions lf_fresh.
+Print Assumptions lf_model_passes_check.
+Print Assumptions find_prefix_order_refuted.
+Print Assumptions lf_order_refuted.
+Print Assumptions lf_order_indep_lang.
+Print Assumptions lf_start_clash_refuted.
+Print Assumptions prefix_free_check_spec.
+Print Assumptions fresh_check_spec.
+Print Assumptions lf_check_spec.
+Print Assumptions find_prefix_empty.
+Print Assumptions find_prefix_sound.
+Print Assumptions fresh_max_ok.
+Print Assumptions ex_S_lang.
